@@ -49,6 +49,8 @@ func isNilValue(x value) bool {
 		return x == nil
 	case *ssa.Builtin:
 		return x == nil
+	case *opaqueSlice:
+		return false
 	}
 	panic(fmt.Sprintf("isNilValue: %T", x))
 }
@@ -354,7 +356,11 @@ func (i *interpreter) concreteLen(x value, what string) int {
 	}
 	tb := i.tb
 	if t.w < 64 {
-		t = tb.Sext(t, 64)
+		if i.lenSigned {
+			t = tb.Sext(t, 64)
+		} else {
+			t = tb.Zext(t, 64)
+		}
 	}
 	lim := tb.Const(64, uint64(ps.allocLimit))
 	over := tb.Cmp(opUlt, lim, t) // unsigned: negative lengths count as huge
@@ -673,6 +679,8 @@ func callBuiltin(i *interpreter, caller *frame, callpos token.Pos, fn *ssa.Built
 				return 0
 			}
 			return len(x.buf)
+		case *opaqueSlice:
+			return x.n
 		default:
 			panic(fmt.Sprintf("len: illegal operand: %T", x))
 		}
